@@ -915,6 +915,9 @@ def select__attribute_kind_test_or_axis(self: XPathToken, context: ta.ContextTyp
     if context is None:
         raise self.missing_context()
     elif self.label == 'axis':
+        if not isinstance(context.item, ElementNode):
+            return  # the attribute axis is empty unless the context node is an element
+
         for _ in context.iter_attributes():
             yield from cast(Iterator[AttributeNode], self[0].select(context))
     elif not self:
